@@ -174,7 +174,8 @@ def run(res: Result, scenarios: list[str], keep: dict, oracle, label: str = ""):
     have = set(scenarios)
     scenarios = scenarios + [e for e in (eager(l) for l in plain[::step]) if e not in have]
     reals = [run_real(l) for l in scenarios]
-    models = [m.split(" ## ") for m in run_driver(scenarios)]
+    # (the model knows one kind of immediate connect failure: the errno letter of `failU`, `failT`, … is the simulator's)
+    models = [m.split(" ## ") for m in run_driver([re.sub(r"\bfail[A-Z]\b", "fail", l) for l in scenarios])]
     fails, div = [], []
     for line, r, m in zip(scenarios, reals, models):
         res.cases += 1
@@ -191,6 +192,7 @@ def run(res: Result, scenarios: list[str], keep: dict, oracle, label: str = ""):
         if not fs:
             res.nontrivial.add(hash(line))
         pr, pm = project(r, keep), project(m, keep)
+        pr = [re.sub(r"\bfail[A-Z]\b", "fail", x) if x.startswith("EV") else x for x in pr]    # (the echoed event text)
         if ";eager=1" in line.split("|")[0] or "during=" in line.split("|")[0] or "midroute=" in line.split("|")[0]:
             continue            # alternative schedule of the real node: direct oracle only (the model is sequential)
         if pr != pm:
